@@ -41,6 +41,21 @@ Theorem c03_dispatch_any_bytes :
 Proof. exact handle_segmentation_invariant. Qed.
 Print Assumptions c03_dispatch_any_bytes.
 
+(* the framing is injective on sequences of buffers within the limit *)
+Theorem c03_stream_injective : forall limit ps1 ps2,
+  limit < 4294967296 -> Forall (fits limit) ps1 -> Forall (fits limit) ps2 ->
+  stream ps1 = stream ps2 -> ps1 = ps2.
+Proof. exact stream_injective. Qed.
+Print Assumptions c03_stream_injective.
+
+(* the hypothesis "buffers shorter than 2^32 bytes" is necessary: the uint32
+   size header of a longer buffer announces only len mod 2^32 bytes *)
+Theorem c03_size_wrap : forall limit b rest k,
+  lenN b = 4294967296 + k -> 0 < k -> k <= limit -> limit < 4294967296 ->
+  parse1 limit (send_raw b ++ rest) = PFrame (takeN k b) (dropN k b ++ rest).
+Proof. exact size_wrap. Qed.
+Print Assumptions c03_size_wrap.
+
 (* -- values ------------------------------------------------------------------------- *)
 
 Theorem c03_roundtrip :
@@ -52,6 +67,16 @@ Theorem c03_roundtrip :
   unmarshal registry dec buf = UOk (tid_of (type_of v)) v.
 Proof. exact unmarshal_marshal. Qed.
 Print Assumptions c03_roundtrip.
+
+Theorem c03_marshal_injective :
+  forall (V T : Type) (type_of : V -> T) (tid_of : T -> bytes) (registry : bytes -> option T)
+         (enc : V -> option bytes) (dec : T -> bytes -> option V) v1 v2 buf,
+  tid_16 T tid_of -> codec_roundtrip V T type_of enc dec ->
+  registered V T type_of tid_of registry v1 -> registered V T type_of tid_of registry v2 ->
+  marshal type_of tid_of registry enc v1 = Some buf ->
+  marshal type_of tid_of registry enc v2 = Some buf -> v1 = v2.
+Proof. exact marshal_injective. Qed.
+Print Assumptions c03_marshal_injective.
 
 (* sent values arrive as equal values with their type id, in sending order,
    once each, whatever the segmentation *)
